@@ -495,7 +495,7 @@ def tier_opts(tier):
         return {"runs": 300000, "determinism_sample": 1024, "perturb_sample": 4000, "asan_runs": 100000,
                 "pool_max_ops": 24, "layout_max_depth": 4, "layout_exotic_dtypes": True, "run_timeout": 30.0,
                 "shrink_per_class": 3, "mutants": True}
-    return {"runs": 30000, "determinism_sample": 64, "perturb_sample": 1000, "pool_max_ops": 14, "layout_max_depth": 3,
+    return {"asan_runs": 8000, "runs": 30000, "determinism_sample": 64, "perturb_sample": 1000, "pool_max_ops": 14, "layout_max_depth": 3,
             "run_timeout": 10.0, "shrink_per_class": 2}
 
 
